@@ -82,6 +82,11 @@ var startStates = []startState{
 		_ = os.MkdirAll(d, 0o755)
 		return s + "/store/../store/."
 	}},
+	// other spellings of a directory: a trailing separator, a doubled separator, a ./ prefix
+	{Name: "path-with-trailing-separator-missing", Prepare: func(s string) string { return s + "/store/" }, Missing: true},
+	{Name: "path-with-trailing-separator-existing", Prepare: func(s string) string { _ = os.MkdirAll(filepath.Join(s, "store"), 0o755); return s + "/store/" }},
+	{Name: "path-with-doubled-separator", Prepare: func(s string) string { _ = os.MkdirAll(filepath.Join(s, "n1", "store"), 0o755); return s + "/n1//store" }},
+	{Name: "relative-path-with-dot-prefix-missing", Prepare: func(s string) string { return "./n1/store" }, Relative: true, Missing: true},
 	// environment answers: working directory (relative configured path) and file-mode creation mask
 	{Name: "relative-path-existing", Prepare: func(s string) string { _ = os.MkdirAll(filepath.Join(s, "store"), 0o755); return "store" }, Relative: true},
 	{Name: "relative-path-missing", Prepare: func(s string) string { return filepath.Join("n1", "store") }, Relative: true, Missing: true},
